@@ -124,10 +124,28 @@ pub(crate) fn remove_or_compress_too_old_logfiles_impl(
 
     #[cfg(flexi_logger_verif)]
     let _ = crate::verif_hooks::fs_point("cleanup_list", &file_spec.directory);
-    for (index, file) in list_of_log_and_compressed_files(file_spec, infix_filter)
-        .into_iter()
-        .enumerate()
+    #[allow(unused_mut)]
+    let mut files = list_of_log_and_compressed_files(file_spec, infix_filter);
+
+    // A compressed file next to its original is the left-over of an interrupted compression
+    // (the original is removed last); it must neither be counted nor be taken for the real thing
+    #[cfg(feature = "compress")]
     {
+        let leftovers: Vec<PathBuf> = files
+            .iter()
+            .filter(|file| {
+                file.extension().is_some_and(|extension| extension == "gz")
+                    && files.contains(&file.with_extension(""))
+            })
+            .cloned()
+            .collect();
+        for leftover in leftovers {
+            std::fs::remove_file(&leftover)?;
+            files.retain(|file| *file != leftover);
+        }
+    }
+
+    for (index, file) in files.into_iter().enumerate() {
         if index >= log_limit + compress_limit {
             // delete (log or log.gz)
             #[cfg(flexi_logger_verif)]
